@@ -81,15 +81,21 @@ Qed.
 
 Section P.
   Variables (rmp lws lmp : N).
+  Variable hook : list hop.
   Hypothesis Hrmp : 0 < rmp.
   Notation write := (write rmp).
   Notation write_ext := (write_ext rmp).
   Notation write_ext_all := (write_ext_all rmp).
-  Notation add_window := (add_window true rmp).
+  Notation add_window := (add_window true hook rmp).
+  Notation run_hook := (run_hook hook rmp).
   Notation recv_data := (recv_data lws lmp).
-  Notation recv_adjust := (recv_adjust true rmp).
-  Notation step := (step true rmp lws lmp).
-  Notation run := (run true rmp lws lmp).
+  Notation recv_adjust := (recv_adjust true hook rmp).
+  Notation step := (step true hook rmp lws lmp).
+  Notation run := (run true hook rmp lws lmp).
+  Notation wdata_at := (wdata_at hook).
+  Notation xdata_at := (xdata_at hook).
+  Notation hwritten := (hwritten true hook rmp lws lmp).
+  Notation hxwritten := (hxwritten true hook rmp lws lmp).
 
   (** ---------- the effect every send-side routine has, whatever the state ---------- *)
   Definition lv (s : st) : Prop := live s = false -> lclosed s = true /\ rclosed s = true.
@@ -281,7 +287,7 @@ Section P.
   (** ---------- addWindowBytes ---------- *)
   Definition aw_start (s : st) (n : N) : st :=
     let s1 := set_rwl (rwl s + n) s in
-    if negb (writing s1) && negb (closing s1) then emit CbStart (set_writing true s1) else s1.
+    if negb (writing s1) && negb (closing s1) then run_hook (emit CbStart (set_writing true s1)) else s1.
   Definition aw_buf (s2 : st) : st :=
     match buf s2 with [] => s2 | b => write (set_buf [] s2) b end.
   Definition aw_ext (s3 : st) : st :=
@@ -295,10 +301,23 @@ Section P.
   Lemma add_window_eq s n : add_window s n = aw_ext (aw_buf (aw_start s n)).
   Proof. reflexivity. Qed.
 
+  (** the writes made from inside startWriting() *)
+  Definition hstep (s : st) (h : hop) : st :=
+    match h with HWrite d => write s d | HWriteExt t d => write_ext s t d end.
+  Lemma run_hook_eq s : run_hook s = fold_left hstep hook s.
+  Proof. reflexivity. Qed.
+
+  Lemma eff_hooks hk : forall s, eff s (fold_left hstep hk s).
+  Proof.
+    induction hk as [|h r IH]; intro s; [apply eff_refl|]. cbn [fold_left].
+    eapply eff_trans; [|apply IH]. destruct h; [apply eff_write|apply eff_write_ext].
+  Qed.
+
   Lemma eff_aw_start s n : eff s (aw_start s n).
   Proof.
     unfold aw_start. destruct (_ && _).
-    - eapply eff_cb with (es := [CbStart]); try reflexivity; repeat constructor.
+    - eapply eff_trans; [|rewrite run_hook_eq; apply eff_hooks].
+      eapply eff_cb with (es := [CbStart]); try reflexivity; repeat constructor.
     - apply eff_same; reflexivity.
   Qed.
 
@@ -353,8 +372,18 @@ Section P.
     - unfold cl, set_ext. cbn [ext]. intros _ _ H. exfalso. revert H. apply ext_add_nonnil.
   Qed.
 
+  Lemma cl_hooks hk : forall s, cl s -> cl (fold_left hstep hk s).
+  Proof.
+    induction hk as [|h r IH]; intros s H; [exact H|]. cbn [fold_left]. apply IH.
+    destruct h; [apply cl_write|apply cl_write_ext].
+  Qed.
+
   Lemma cl_aw_start s n : cl s -> cl (aw_start s n).
-  Proof. unfold aw_start, cl. destruct (_ && _); cbn; auto. Qed.
+  Proof.
+    intro H. unfold aw_start. destruct (_ && _).
+    - rewrite run_hook_eq. apply cl_hooks. unfold cl in *. cbn. exact H.
+    - unfold cl in *. cbn. exact H.
+  Qed.
 
   Lemma cl_aw_buf s : cl s -> cl (aw_buf s).
   Proof. unfold aw_buf. destruct (buf s); [auto|intros _; apply cl_write]. Qed.
@@ -547,14 +576,44 @@ Section P.
       + rewrite P3, O3. lia.
   Qed.
 
+  (** writes made from inside startWriting(): each stream's data goes BEHIND what that stream has already buffered *)
+  Lemma opn_hooks hk : forall s, lclosed s = false -> closing s = false ->
+    opn s (fold_left hstep hk s) (hook_w hk) (hook_x hk) 0 /\
+    lclosed (fold_left hstep hk s) = false /\ closing (fold_left hstep hk s) = false.
+  Proof.
+    induction hk as [|h r IH]; intros s Hl Hc.
+    - cbn. unfold opn. rewrite !app_nil_r. repeat split; auto. lia.
+    - cbn [fold_left]. 
+      assert (opn s (hstep s h) (hook_w [h]) (hook_x [h]) 0 /\ lclosed (hstep s h) = false /\ closing (hstep s h) = false)
+        as ((O1 & O2 & O3) & Hl1 & Hc1).
+      { destruct h as [d|t d]; cbn [hstep hook_w hook_x flat_map]; rewrite !app_nil_r.
+        - destruct (opn_write s d Hl) as (O & _ & K). destruct (K Hc). auto.
+        - destruct (opn_write_ext s t d Hl) as (O & _ & K). destruct (K Hc). auto. }
+      destruct (IH _ Hl1 Hc1) as ((P1 & P2 & P3) & Hl2 & Hc2). repeat split; auto.
+      + rewrite P1, O1. replace (hook_w (h :: r)) with (hook_w [h] ++ hook_w r) by (unfold hook_w; cbn [flat_map]; rewrite app_nil_r; reflexivity).
+        rewrite app_assoc. reflexivity.
+      + rewrite P2, O2. replace (hook_x (h :: r)) with (hook_x [h] ++ hook_x r) by (unfold hook_x; cbn [flat_map]; rewrite app_nil_r; reflexivity).
+        rewrite app_assoc. reflexivity.
+      + rewrite P3, O3. lia.
+  Qed.
+
+  Definition wakes (s : st) : bool := negb (writing s) && negb (closing s).
+
   Lemma opn_add_window s n : lclosed s = false ->
-    opn s (add_window s n) [] [] n /\ flush (add_window s n).
+    opn s (add_window s n) (if wakes s then hook_w hook else []) (if wakes s then hook_x hook else []) n /\
+    flush (add_window s n).
   Proof.
     intro Hl. rewrite add_window_eq.
     (* start *)
-    assert (opn s (aw_start s n) [] [] n /\ lclosed (aw_start s n) = false) as [(A1 & A2 & A3) Hl2].
-    { unfold aw_start. destruct (_ && _); unfold opn, D, X, B; cbn;
-        rewrite ?dbytes_app, ?xbytes_app, ?sent_app; cbn; rewrite ?app_nil_r; repeat split; auto; lia. }
+    assert (opn s (aw_start s n) (if wakes s then hook_w hook else []) (if wakes s then hook_x hook else []) n /\
+            lclosed (aw_start s n) = false) as [(A1 & A2 & A3) Hl2].
+    { unfold aw_start, wakes. cbn [writing closing set_rwl]. destruct (negb (writing s) && negb (closing s)) eqn:Ew.
+      - apply andb_true_iff in Ew. destruct Ew as [_ Ec]. apply negb_true_iff in Ec.
+        rewrite run_hook_eq.
+        destruct (opn_hooks hook (emit CbStart (set_writing true (set_rwl (rwl s + n) s))) Hl Ec) as ((P1 & P2 & P3) & Hl' & _).
+        split; [|exact Hl']. unfold opn. rewrite P1, P2, P3. unfold D, X, B. cbn.
+        rewrite ?dbytes_app, ?xbytes_app, ?sent_app; cbn; rewrite ?app_nil_r; repeat split; auto; lia.
+      - unfold opn, D, X, B; cbn; rewrite ?app_nil_r; repeat split; auto; lia. }
     set (s2 := aw_start s n) in *.
     (* buf *)
     assert (opn s2 (aw_buf s2) [] [] 0 /\ flush (aw_buf s2)) as [(B1 & B2 & B3) F3].
@@ -671,11 +730,11 @@ Section P.
             (closes es + b2n (lclosed s) = b2n (lclosed s'))%nat /\
             (lwl s' + recvd es = lwl s + adjusted es /\
              (lclosed s' = false -> lws / 2 <= lwl s -> lws / 2 <= lwl s'));
-    s_open : lclosed s = false -> lv s -> opn s s' (wdata o) (xdata o) (grant o) }.
+    s_open : lclosed s = false -> lv s -> opn s s' (wdata_at s o) (xdata_at s o) (grant o) }.
 
   Lemma seff_of_eff s s' o :
     eff s s' -> (J s -> J s') -> (cl s -> cl s') ->
-    (lclosed s = false -> opn s s' (wdata o) (xdata o) (grant o)) -> seff s s' o.
+    (lclosed s = false -> opn s s' (wdata_at s o) (xdata_at s o) (grant o)) -> seff s s' o.
   Proof.
     intros [E1 E2 E3 E4 (es & L & S & P & Q & C)] HJ Hcl Ho. split; auto.
     exists es. destruct (sside_reads es S) as (R & A & _). rewrite R, A, E1.
@@ -683,7 +742,7 @@ Section P.
   Qed.
 
   Lemma seff_of_reff s s' o :
-    reff s s' -> wdata o = [] -> xdata o = [] -> grant o = 0 -> seff s s' o.
+    reff s s' -> wdata_at s o = [] -> xdata_at s o = [] -> grant o = 0 -> seff s s' o.
   Proof.
     intros [R1 R2 R3 R4 R5 R6 (es & L & Nd & Q & C & W)] Hw Hx Hg.
     destruct (nodata_reads es Nd) as (Zd & Zx & Zs & Pk).
@@ -704,13 +763,15 @@ Section P.
   Lemma step_seff s o : seff s (step s o) o.
   Proof.
     destruct o as [d|t d| |n|d|t d| |n]; cbn [Model.step].
-    - apply seff_of_eff; [apply eff_write|apply write_J|intros _; apply cl_write|intro H; apply opn_write, H].
+    - apply seff_of_eff; [apply eff_write|apply write_J|intros _; apply cl_write|
+                          intro H; unfold Model.wdata_at, Model.xdata_at; cbn; rewrite app_nil_r; apply opn_write, H].
     - apply seff_of_eff; [apply eff_write_ext|apply write_ext_J|intros _; apply cl_write_ext|
-                          intro H; apply opn_write_ext, H].
+                          intro H; unfold Model.wdata_at, Model.xdata_at; cbn; rewrite app_nil_r; apply opn_write_ext, H].
     - apply seff_of_eff; [apply eff_lose|apply lose_J|intros _; apply cl_lose|intros _; apply opn_lose].
     - unfold Model.recv_adjust. destruct (live s) eqn:Hl; cbn [negb].
-      + apply seff_of_eff; [apply eff_add_window|intros _; apply add_window_J|apply cl_add_window|
-                            intro H; apply opn_add_window, H].
+      + apply seff_of_eff; [apply eff_add_window|intros _; apply add_window_J|apply cl_add_window|].
+        intro H. unfold Model.wdata_at, Model.xdata_at, fires. rewrite Hl. cbn [wdata xdata app andb].
+        apply opn_add_window, H.
       + apply seff_keyerr, Hl.
     - apply seff_of_reff; try reflexivity. apply reff_recv_data. left. reflexivity.
     - apply seff_of_reff; try reflexivity. apply reff_recv_data. right. eexists. reflexivity.
@@ -719,16 +780,16 @@ Section P.
   Qed.
 
   (** ---------- the invariant of every history ---------- *)
-  Record Inv (rw : N) (ops : list op) (s : st) : Prop := {
+  Record Inv (rw : N) (ops : list op) (W : bytes) (XW : list (N * N)) (s : st) : Prop := {
     i_J : J s; i_cl : cl s; i_lv : lv s;
     i_cc : closes (log s) = b2n (lclosed s);
     i_pk : Forall (pkt_ok rmp) (log s);
-    i_open : lclosed s = false -> D s = written ops /\ X s = xwritten ops /\ B s = rw + granted ops;
+    i_open : lclosed s = false -> D s = W /\ X s = XW /\ B s = rw + granted ops;
     i_sent : sent (log s) <= rw + granted ops;
     i_rw : lwl s + recvd (log s) = lws + adjusted (log s);
     i_lwl : lclosed s = false -> lws / 2 <= lwl s }.
 
-  Lemma Inv_init rw : Inv rw [] (init rw lws).
+  Lemma Inv_init rw : Inv rw [] [] [] (init rw lws).
   Proof.
     split; cbn; auto; try lia.
     - split; cbn; congruence.
@@ -738,7 +799,8 @@ Section P.
     - intros _. apply N.div_le_upper_bound; lia.
   Qed.
 
-  Lemma Inv_step rw ops s o : Inv rw ops s -> Inv rw (ops ++ [o]) (step s o).
+  Lemma Inv_step rw ops Wd Xd s o : Inv rw ops Wd Xd s ->
+    Inv rw (ops ++ [o]) (Wd ++ wdata_at s o) (Xd ++ xdata_at s o) (step s o).
   Proof.
     intros [I1 I2 I3 I4 I5 I6 I7 I8 I10].
     destruct (step_seff s o) as [S1 S2 S3 S4 (es & L & P & Q & C & W) S6].
@@ -750,7 +812,7 @@ Section P.
     - intro Ho. assert (lclosed s = false) as Hs.
       { destruct (lclosed s) eqn:E; [rewrite S4 in Ho by reflexivity; discriminate|reflexivity]. }
       destruct (S6 Hs I3) as (O1 & O2 & O3). destruct (I6 Hs) as (A1 & A2 & A3).
-      rewrite O1, O2, O3, A1, A2, A3, written_app, xwritten_app, G. cbn. rewrite !app_nil_r. repeat split. lia.
+      rewrite O1, O2, O3, A1, A2, A3, G. repeat split. lia.
     - rewrite G, L, sent_app. destruct (lclosed s) eqn:Hs.
       + destruct (quiet_reads es (Q eq_refl)) as (_ & _ & Z & _). rewrite Z. lia.
       + destruct (S6 eq_refl I3) as (_ & _ & O3). destruct (I6 eq_refl) as (_ & _ & A3).
@@ -760,16 +822,23 @@ Section P.
       destruct (lclosed s) eqn:E; [rewrite S4 in Ho by reflexivity; discriminate|reflexivity].
   Qed.
 
-  Lemma Inv_run rw ops : forall done s, Inv rw done s -> Inv rw (done ++ ops) (run s ops).
+  Lemma Inv_run rw ops : forall done W XW s, Inv rw done W XW s ->
+    Inv rw (done ++ ops) (W ++ hwritten s ops) (XW ++ hxwritten s ops) (run s ops).
   Proof.
-    induction ops as [|o r IH]; intros done s H; cbn [Model.run fold_left].
-    - rewrite app_nil_r. exact H.
+    induction ops as [|o r IH]; intros done W XW s H; cbn [Model.run fold_left Model.hwritten Model.hxwritten].
+    - rewrite !app_nil_r. exact H.
     - replace (done ++ o :: r) with ((done ++ [o]) ++ r) by (rewrite <- app_assoc; reflexivity).
-      apply IH, Inv_step, H.
+      rewrite !app_assoc. apply IH, Inv_step, H.
   Qed.
 
-  Lemma Inv_reach rw ops : Inv rw ops (run (init rw lws) ops).
-  Proof. apply (Inv_run rw ops [] _ (Inv_init rw)). Qed.
+  Lemma Inv_reach rw ops :
+    Inv rw ops (hwritten (init rw lws) ops) (hxwritten (init rw lws) ops) (run (init rw lws) ops).
+  Proof. apply (Inv_run rw ops [] [] [] _ (Inv_init rw)). Qed.
+
+  Lemma hwritten_app a : forall s b, hwritten s (a ++ b) = hwritten s a ++ hwritten (run s a) b.
+  Proof. induction a as [|o r IH]; intros s b; cbn; [reflexivity|]. rewrite IH, app_assoc. reflexivity. Qed.
+  Lemma hxwritten_app a : forall s b, hxwritten s (a ++ b) = hxwritten s a ++ hxwritten (run s a) b.
+  Proof. induction a as [|o r IH]; intros s b; cbn; [reflexivity|]. rewrite IH, app_assoc. reflexivity. Qed.
 
   (** ---------- the property theorems (stated again, in full, in Property.v) ---------- *)
   Notation reach rw ops := (run (init rw lws) ops).
@@ -793,12 +862,15 @@ Section P.
     (buf (reach rw ops) <> [] \/ ext (reach rw ops) <> []) -> rwl (reach rw ops) = 0.
   Proof. destruct (Inv_reach rw ops) as [[J1 J2] _]. intros [H|H]; auto. Qed.
 
+  Notation hw rw ops := (hwritten (init rw lws) ops).
+  Notation hx rw ops := (hxwritten (init rw lws) ops).
+
   Lemma T_streams rw ops :
     let s := reach rw ops in
     lclosed s = false ->
-    dbytes (log s) ++ buf s = written ops /\ xbytes (log s) ++ flatx (ext s) = xwritten ops /\
-    (len (written ops) + len (xwritten ops) <= rw + granted ops ->
-     buf s = [] /\ flatx (ext s) = [] /\ dbytes (log s) = written ops /\ xbytes (log s) = xwritten ops).
+    dbytes (log s) ++ buf s = hw rw ops /\ xbytes (log s) ++ flatx (ext s) = hx rw ops /\
+    (len (hw rw ops) + len (hx rw ops) <= rw + granted ops ->
+     buf s = [] /\ flatx (ext s) = [] /\ dbytes (log s) = hw rw ops /\ xbytes (log s) = hx rw ops).
   Proof.
     intros s Ho. destruct (Inv_reach rw ops) as [[J1 J2] _ _ _ _ I6 _ _ _]. fold s in J1, J2, I6.
     destruct (I6 Ho) as (HD & HX & HB). unfold D, X, B in *. split; [exact HD|split; [exact HX|]]. intro Hw.
@@ -849,14 +921,33 @@ Section P.
     let s := reach rw ops in let s' := step s o in
     lclosed s = false -> lclosed s' = true -> overruns lmp s o = false ->
     buf s' = [] /\ ext s' = [] /\
-    dbytes (log s') = written (ops ++ [o]) /\ xbytes (log s') = xwritten (ops ++ [o]).
+    dbytes (log s') = hw rw (ops ++ [o]) /\ xbytes (log s') = hx rw (ops ++ [o]).
   Proof.
     intros s s' Ho Hc Hr. pose proof (Inv_reach rw ops) as I. fold s in I.
-    destruct (step_flush s o (i_lv _ _ _ I) Ho Hr Hc) as [Fb Fe]. fold s' in Fb, Fe.
-    destruct (step_seff s o) as [_ _ _ _ _ S6]. destruct (S6 Ho (i_lv _ _ _ I)) as (O1 & O2 & _).
-    destruct (i_open _ _ _ I Ho) as (A1 & A2 & _). fold s' in O1, O2.
+    destruct (step_flush s o (i_lv _ _ _ _ _ I) Ho Hr Hc) as [Fb Fe]. fold s' in Fb, Fe.
+    destruct (step_seff s o) as [_ _ _ _ _ S6]. destruct (S6 Ho (i_lv _ _ _ _ _ I)) as (O1 & O2 & _).
+    destruct (i_open _ _ _ _ _ I Ho) as (A1 & A2 & _). fold s' in O1, O2.
     unfold D, X in *. rewrite Fb, Fe, A1, A2 in *. cbn [flatx flat_map] in O2. rewrite !app_nil_r in *.
-    rewrite written_app, xwritten_app. cbn. rewrite !app_nil_r. auto.
+    rewrite hwritten_app, hxwritten_app. fold s. cbn [Model.hwritten Model.hxwritten]. rewrite !app_nil_r. auto.
+  Qed.
+
+  (** the re-entrant case: data written from inside startWriting() goes behind the backlog of its stream *)
+  Lemma T_reentrant s n :
+    lclosed s = false -> live s = true -> writing s = false -> closing s = false ->
+    let s' := step s (RAdjust n) in
+    dbytes (log s') ++ buf s' = (dbytes (log s) ++ buf s) ++ hook_w hook /\
+    xbytes (log s') ++ flatx (ext s') = (xbytes (log s) ++ flatx (ext s)) ++ hook_x hook.
+  Proof.
+    intros Hl Hv Hw Hc s'. unfold s'. cbn [Model.step]. unfold Model.recv_adjust. rewrite Hv. cbn [negb].
+    destruct (opn_add_window s n Hl) as ((O1 & O2 & _) & _). unfold wakes in O1, O2. rewrite Hw, Hc in O1, O2.
+    exact (conj O1 O2).
+  Qed.
+
+  Lemma hwritten_no_hook : hook = [] -> forall ops s, hwritten s ops = written ops /\ hxwritten s ops = xwritten ops.
+  Proof.
+    intros Hh. induction ops as [|o r IH]; intro s; [auto|]. cbn [Model.hwritten Model.hxwritten].
+    destruct (IH (step s o)) as [-> ->]. unfold Model.wdata_at, Model.xdata_at. rewrite Hh. cbn [hook_w hook_x flat_map].
+    destruct (fires s o); rewrite !app_nil_r; auto.
   Qed.
 
   Lemma quiet_pkts es : Forall quiet es -> pkts es = [].
@@ -867,14 +958,14 @@ Section P.
     closes (log s) = (if lclosed s then 1 else 0)%nat /\
     (lclosed s = true -> lclosed (step s o) = true /\ pkts (log (step s o)) = pkts (log s)).
   Proof.
-    intros s. pose proof (Inv_reach rw ops) as I. fold s in I. split; [apply (i_cc _ _ _ I)|].
+    intros s. pose proof (Inv_reach rw ops) as I. fold s in I. split; [apply (i_cc _ _ _ _ _ I)|].
     intro Hc. destruct (step_seff s o) as [_ _ _ S4 (es & L & _ & Q & _) _]. split; [auto|].
     rewrite L. unfold pkts. rewrite filter_app. fold (pkts es). rewrite (quiet_pkts es (Q Hc)), app_nil_r. reflexivity.
   Qed.
 
   Lemma T_close_sent rw ops :
     let s := reach rw ops in closing s = true -> buf s = [] -> ext s = [] -> lclosed s = true.
-  Proof. intros s. apply (i_cl _ _ _ (Inv_reach rw ops)). Qed.
+  Proof. intros s. apply (i_cl _ _ _ _ _ (Inv_reach rw ops)). Qed.
 
   Lemma T_compliant rw ops d :
     let s := reach rw ops in
@@ -885,14 +976,14 @@ Section P.
      exists pre, log (recv_data s cb d) = log s ++ pre ++ [cb d] /\ pkts pre = pre /\ closes pre = 0%nat /\
                  (pre = [] \/ exists n, pre = [PAdjust n])).
   Proof.
-    intros s. pose proof (i_rw _ _ _ (Inv_reach rw ops)) as E. fold s in E. split; [exact E|].
+    intros s. pose proof (i_rw _ _ _ _ _ (Inv_reach rw ops)) as E. fold s in E. split; [exact E|].
     intros Hl H1 H2 cb. apply recv_accepts; auto. lia.
   Qed.
 
   Lemma T_replenish rw ops :
     let s := reach rw ops in 2 <= lws -> lclosed s = false -> 1 <= lwl s.
   Proof.
-    intros s H2 Ho. pose proof (i_lwl _ _ _ (Inv_reach rw ops)) as H. fold s in H. specialize (H Ho).
+    intros s H2 Ho. pose proof (i_lwl _ _ _ _ _ (Inv_reach rw ops)) as H. fold s in H. specialize (H Ho).
     assert (1 <= lws / 2) by (apply N.div_le_lower_bound; lia). lia.
   Qed.
 
